@@ -60,6 +60,16 @@ def room_predicate(chk, prog, roles):
     if first_if is None:
         raise AnalysisBroken("room check %s has no test" % roles.room_check)
     c = strip(kids(first_if)[0])
+    # two shapes: `if (not enough room) { fail or grow }` ... or `if (enough room) return success; fail or grow`
+    then = kids(first_if)[1]
+    then_stmts = kids(then) if then.get("kind") == "CompoundStmt" else [then]
+    inverted = (len(kids(first_if)) == 2 and len(then_stmts) == 1 and then_stmts[0].get("kind") == "ReturnStmt" and
+                kids(then_stmts[0]) and ConstEval(prog).try_eval(kids(then_stmts[0])[0]) == 0)
+    if inverted:
+        region = body[body.index(first_if) + 1:]
+    else:
+        region = then_stmts
+    roles._room_region = region
     K = None
     defs = {}
     for m in walk(prog.body(f)):
@@ -77,6 +87,8 @@ def room_predicate(chk, prog, roles):
             for k, v in r.items():
                 d[k] = d.get(k, 0) - v          # l - r  (op) 0
             op = c["opcode"]
+            if inverted:                        # the test says "enough room": the complement is what we normalise
+                op = {"<": ">=", "<=": ">", ">": "<=", ">=": "<"}[op]
             if op in ("<", "<="):
                 d = {k: -v for k, v in d.items()}
                 op = {"<": ">", "<=": ">="}[op]
@@ -104,8 +116,10 @@ def external_rule(chk, prog, roles, first_if):
     """inside the not-enough-room branch an external (caller-owned) buffer fails before anything else happens"""
     f = prog.fn(roles.room_check)
     inst = prog.params(f)[0]["name"]
-    then = kids(first_if)[1]
-    stmts = kids(then) if then.get("kind") == "CompoundStmt" else [then]
+    stmts = getattr(roles, "_room_region", None)
+    if stmts is None:
+        then = kids(first_if)[1]
+        stmts = kids(then) if then.get("kind") == "CompoundStmt" else [then]
     ok = False
     if stmts and stmts[0].get("kind") == "IfStmt":
         c = strip(kids(stmts[0])[0])
@@ -115,13 +129,20 @@ def external_rule(chk, prog, roles, first_if):
     chk.require(ok, "ROOM", "ROOM/external-fails", loc_str(stmts[0]) if stmts else loc_str(first_if),
                 "with a caller-provided buffer, lack of room returns EXIT_FAILURE before any growth or write",
                 "first statement of the branch: %s" % (expr_str(kids(stmts[0])[0]) if stmts and stmts[0].get("kind") == "IfStmt" else "not an `if (external)`"))
-    # every path through the routine that returns success either had enough room or grew the buffer
+    # every path through the routine that returns success either had enough room or grew the buffer: inside the
+    # not-enough-room region a success return only comes after the statement that enlarges buffer_len
     succ_after_fail = False
-    for m in walk(then):
-        if m.get("kind") == "ReturnStmt" and kids(m) and ConstEval(prog).try_eval(kids(m)[0]) == 0:
-            succ_after_fail = True
+    grown = False
+    for st in stmts:
+        for m in walk(st):
+            if m.get("kind") == "ReturnStmt" and kids(m) and ConstEval(prog).try_eval(kids(m)[0]) == 0 and not grown:
+                succ_after_fail = True
+        if any(m.get("kind") in ("CompoundAssignOperator", "BinaryOperator") and m.get("opcode") in ("+=", "=") and
+               strip(kids(m)[0], casts=True).get("kind") == "MemberExpr" and strip(kids(m)[0], casts=True).get("name") == "buffer_len"
+               for m in walk(st)):
+            grown = True
     chk.require(not succ_after_fail, "ROOM", "ROOM/no-success-without-room", loc_str(first_if),
-                "the not-enough-room branch never returns success directly", "a `return EXIT_SUCCESS` inside the branch")
+                "without enough room success is returned only after the buffer was enlarged", "a `return EXIT_SUCCESS` before buffer_len grows")
 
 
 def who_rule(chk, prog, roles):
@@ -147,9 +168,11 @@ def who_rule(chk, prog, roles):
     chk.floor("byte stores through pointers", n, 12)
     for target in (roles.encode, roles.padder):
         callers = EFF.callers_of(g, target)
-        chk.require(set(callers) <= set(roles.emitters), "WHO", "WHO/callers/%s" % target, loc_str(prog.fn(target)),
+        chk.require(set(callers) <= set(roles.emitters) | {roles.driver}, "WHO", "WHO/callers/%s" % target, loc_str(prog.fn(target)),
                     "%s is called only from the per-instruction emitters (where the room check gates it)" % target, "callers %s" % callers)
     for em in roles.emitters:
+        if em == roles.driver:
+            continue
         callers = EFF.callers_of(g, em)
         chk.require(callers == [roles.driver], "WHO", "WHO/callers/%s" % em, loc_str(prog.fn(em)),
                     "%s is called only from the per-line driver" % em, "callers %s" % callers)
